@@ -1,6 +1,232 @@
-//! Monitor for C20 (see /verif/DESIGN.md §5 C20).
-use vcommon::Args;
+//! C20 — market config updates follow the keeper permission policy.
+//!
+//! Observed: the real `set_market_config_updatable`, `update_market_config`, `update_market_config_flag`,
+//! `initialize_market_config_buffer`, `push_to_market_config_buffer`, `update_market_config_with_buffer`
+//! instructions in hostsvm, called by a MARKET_KEEPER, a MARKET_CONFIG_KEEPER, a holder of another role
+//! and a stranger. Oracle: the four-line policy of the property over a reference set of updatable keys.
+use crate::world::{exchange::load, *};
+use anchor_lang::prelude::Pubkey;
+use gmsol_store::{accounts as sa, instruction as si, states::{market::config::EntryArgs, Market}};
+use gmsol_utils::{market::{MarketConfigFlag, MarketConfigKey}, role::RoleKey};
+use std::collections::BTreeSet;
+use strum::IntoEnumIterator;
+use vcommon::{json, monitor::run_shards, Args, Monitor, Rng};
 
-pub fn run(_args: &Args) -> Option<i32> {
-    None
+#[derive(Clone, Copy, Debug, PartialEq, Eq)]
+enum Actor {
+    MarketKeeper,
+    ConfigKeeper,
+    OtherRole,
+    Stranger,
+}
+
+fn run_shard(args: &Args, shard: u64, m: &mut Monitor) {
+    let mut rng = Rng::derive(args.seed, shard, 0x20);
+    let mut w = World::bootstrap_store();
+    w.bootstrap_oracle();
+    let btc = w.add_token("BTC", 8, 2, true);
+    let sol = w.add_token("SOL", 9, 4, false);
+    let usdc = w.add_token("USDC", 6, 6, false);
+    let mk = w.add_market(btc, sol, usdc);
+    let market = w.markets[mk].market;
+    let keeper = w.keeper;
+    let mck = w.add_user("config-keeper");
+    let other = w.add_user("order-keeper-only");
+    let stranger = w.add_user("nobody");
+    w.grant(&mck, RoleKey::MARKET_CONFIG_KEEPER).expect("grant");
+    w.grant(&other, RoleKey::ORDER_KEEPER).expect("grant");
+    let key_of = |a: Actor| match a {
+        Actor::MarketKeeper => keeper,
+        Actor::ConfigKeeper => mck,
+        Actor::OtherRole => other,
+        Actor::Stranger => stranger,
+    };
+    let keys: Vec<MarketConfigKey> = MarketConfigKey::iter().collect();
+    let flags: Vec<MarketConfigFlag> = MarketConfigFlag::iter().collect();
+    m.max("max_config_keys_enumerated", keys.len() as u64);
+    m.max("max_config_flags_enumerated", flags.len() as u64);
+    let set_updatable = |w: &mut World, is_flag: bool, key: String, updatable: bool| {
+        let store = w.store;
+        w.send(
+            &[six(sa::SetMarketConfigUpdatable { authority: keeper, store }, si::SetMarketConfigUpdatable { is_flag, key, updatable })],
+            &[keeper],
+        )
+    };
+    // Start from "nothing updatable" (the instruction refuses a no-op change, hence results are ignored).
+    for k in &keys {
+        let _ = set_updatable(&mut w, false, k.to_string(), false);
+    }
+    for f in &flags {
+        let _ = set_updatable(&mut w, true, f.to_string(), false);
+    }
+    let mut upd_keys: BTreeSet<String> = BTreeSet::new();
+    let mut upd_flags: BTreeSet<String> = BTreeSet::new();
+    let rounds = args.scale(400, 1500);
+    let actors = [Actor::MarketKeeper, Actor::ConfigKeeper, Actor::ConfigKeeper, Actor::OtherRole, Actor::Stranger];
+    for round in 0..rounds {
+        // permission changes
+        if rng.chance(1, 3) {
+            if rng.chance(4, 5) {
+                let k = rng.pick(&keys).to_string();
+                let want = !upd_keys.contains(&k);
+                if set_updatable(&mut w, false, k.clone(), want).is_ok() {
+                    if want { upd_keys.insert(k); } else { upd_keys.remove(&k); }
+                    m.count("permission_changes");
+                }
+            } else {
+                let f = rng.pick(&flags).to_string();
+                let want = !upd_flags.contains(&f);
+                if set_updatable(&mut w, true, f.clone(), want).is_ok() {
+                    if want { upd_flags.insert(f); } else { upd_flags.remove(&f); }
+                    m.count("permission_changes");
+                }
+            }
+        }
+        let actor = *rng.pick(&actors);
+        let who = key_of(actor);
+        let wit = |what: &str, extra: vcommon::serde_json::Value| json!({"shard": shard, "round": round, "actor": format!("{actor:?}"), "what": what, "extra": extra});
+        match rng.below(5) {
+            0 | 1 => {
+                // single key
+                let k = *rng.pick(&keys);
+                let ks = k.to_string();
+                let value = rng.biased_u128(u128::MAX, UNIT);
+                let allowed = actor == Actor::MarketKeeper || (actor == Actor::ConfigKeeper && upd_keys.contains(&ks));
+                let ix = w.update_market_config_ix(who, mk, &ks, value);
+                let r = w.send(&[ix], &[who]);
+                m.eval();
+                m.nontrivial(format!("key:{actor:?}:{}:{}", upd_keys.contains(&ks), r.is_ok()).as_bytes());
+                let stored = load::<Market>(&w.svm, &market).and_then(|x| x.get_config_by_key(k).copied());
+                match (r.is_ok(), allowed) {
+                    (true, false) => m.violation("C20:update_market_config:unauthorised_update_accepted", wit("key update accepted", json!({"key": ks, "updatable": upd_keys.contains(&k.to_string())}))),
+                    (false, true) => m.violation("C20:update_market_config:authorised_update_rejected", wit("key update rejected", json!({"key": ks, "error": format!("{:?}", r.err().map(|e| e.0))}))),
+                    (true, true) => {
+                        m.count(&format!("key_update_ok_{actor:?}"));
+                        if stored != Some(value) {
+                            m.violation("C20:update_market_config:value_not_written", wit("", json!({"key": ks, "value": value.to_string(), "stored": stored.map(|s| s.to_string())})));
+                        }
+                    }
+                    (false, false) => m.count(&format!("key_update_denied_{actor:?}")),
+                }
+            }
+            2 => {
+                let f = *rng.pick(&flags);
+                let fs = f.to_string();
+                let value = rng.bool();
+                let allowed = actor == Actor::MarketKeeper || (actor == Actor::ConfigKeeper && upd_flags.contains(&fs));
+                let ix = w.update_market_config_flag_ix(who, mk, &fs, value);
+                let r = w.send(&[ix], &[who]);
+                m.eval();
+                m.nontrivial(format!("flag:{actor:?}:{}:{}", upd_flags.contains(&fs), r.is_ok()).as_bytes());
+                let stored = load::<Market>(&w.svm, &market).map(|x| x.get_config_flag_by_key(f));
+                match (r.is_ok(), allowed) {
+                    (true, false) => m.violation("C20:update_market_config_flag:unauthorised_update_accepted", wit("flag update accepted", json!({"flag": fs}))),
+                    (false, true) => m.violation("C20:update_market_config_flag:authorised_update_rejected", wit("flag update rejected", json!({"flag": fs, "error": format!("{:?}", r.err().map(|e| e.0))}))),
+                    (true, true) => {
+                        m.count(&format!("flag_update_ok_{actor:?}"));
+                        if stored != Some(value) {
+                            m.violation("C20:update_market_config_flag:value_not_written", wit("", json!({"flag": fs})));
+                        }
+                    }
+                    (false, false) => m.count(&format!("flag_update_denied_{actor:?}")),
+                }
+            }
+            _ => {
+                // buffer
+                let n = rng.range(1, 6) as usize;
+                let mut entries: Vec<(MarketConfigKey, u128)> = vec![];
+                for _ in 0..n {
+                    // bias towards updatable keys so that all-updatable buffers occur
+                    let k = if !upd_keys.is_empty() && rng.chance(2, 3) {
+                        let names: Vec<&String> = upd_keys.iter().collect();
+                        let name = (*rng.pick(&names)).clone();
+                        *keys.iter().find(|k| k.to_string() == name).unwrap()
+                    } else {
+                        *rng.pick(&keys)
+                    };
+                    entries.push((k, rng.biased_u128(u128::MAX, UNIT)));
+                }
+                let buffer = hostsvm::key(&format!("cfgbuf:{shard}:{round}"));
+                let expire_after: u32 = rng.range(5, 60) as u32;
+                let store = w.store;
+                let init = six(
+                    sa::InitializeMarketConfigBuffer { authority: who, store, buffer, system_program: anchor_lang::system_program::ID },
+                    si::InitializeMarketConfigBuffer { expire_after_secs: expire_after },
+                );
+                let push = six(
+                    sa::PushToMarketConfigBuffer { authority: who, buffer, system_program: anchor_lang::system_program::ID },
+                    si::PushToMarketConfigBuffer { new_configs: entries.iter().map(|(k, v)| EntryArgs { key: k.to_string(), value: *v }).collect() },
+                );
+                if w.send(&[init, push], &[who, buffer]).is_err() {
+                    m.count("buffer_setup_failed");
+                    continue;
+                }
+                let created_at = w.svm.clock.unix_timestamp;
+                let expired = if rng.chance(1, 3) {
+                    w.svm.warp(expire_after as i64 + rng.range_i64(0, 5));
+                    true
+                } else {
+                    w.svm.warp(rng.range_i64(0, 3));
+                    false
+                };
+                let now = w.svm.clock.unix_timestamp;
+                let really_expired = now >= created_at + expire_after as i64;
+                let _ = expired;
+                let all_updatable = entries.iter().all(|(k, _)| upd_keys.contains(&k.to_string()));
+                let allowed = !really_expired && (actor == Actor::MarketKeeper || (actor == Actor::ConfigKeeper && all_updatable));
+                let pre: Vec<Option<u128>> = keys.iter().map(|k| load::<Market>(&w.svm, &market).and_then(|x| x.get_config_by_key(*k).copied())).collect();
+                let ix = six(
+                    sa::UpdateMarketConfigWithBuffer { authority: who, store, market, buffer },
+                    si::UpdateMarketConfigWithBuffer {},
+                );
+                let r = w.send(&[ix], &[who]);
+                m.eval();
+                m.nontrivial(format!("buf:{actor:?}:{all_updatable}:{really_expired}:{}", r.is_ok()).as_bytes());
+                match (r.is_ok(), allowed) {
+                    (true, false) => {
+                        let class = if really_expired { "expired_buffer_applied" } else { "unauthorised_buffer_applied" };
+                        m.violation(&format!("C20:update_market_config_with_buffer:{class}"), wit("", json!({"entries": entries.iter().map(|(k, _)| k.to_string()).collect::<Vec<_>>(), "all_updatable": all_updatable, "expired": really_expired})));
+                    }
+                    (false, true) => m.violation("C20:update_market_config_with_buffer:authorised_buffer_rejected", wit("", json!({"error": format!("{:?}", r.err().map(|e| e.0)), "entries": entries.len()}))),
+                    (true, true) => {
+                        m.count(&format!("buffer_applied_{actor:?}"));
+                        // last write per key wins; untouched keys unchanged
+                        for (i, k) in keys.iter().enumerate() {
+                            let expect = entries.iter().rev().find(|(ek, _)| ek == k).map(|(_, v)| *v).or(pre[i]);
+                            let got = load::<Market>(&w.svm, &market).and_then(|x| x.get_config_by_key(*k).copied());
+                            if got != expect {
+                                m.violation("C20:update_market_config_with_buffer:applied_values_differ", wit("", json!({"key": k.to_string()})));
+                            }
+                        }
+                    }
+                    (false, false) => m.count(&format!("buffer_denied_{actor:?}{}", if really_expired { "_expired" } else { "" })),
+                }
+            }
+        }
+        if m.wants_sample() && round % 97 == 3 {
+            m.sample(json!({"round": round, "actor": format!("{actor:?}"), "updatable_keys": upd_keys.len(), "updatable_flags": upd_flags.len()}));
+        }
+    }
+    let _: Option<Pubkey> = None;
+}
+
+pub fn run(args: &Args) -> Option<i32> {
+    let mut mon = Monitor::new(
+        args,
+        "random histories of permission changes (set_market_config_updatable over every MarketConfigKey / \
+         MarketConfigFlag), single-key / flag updates and config buffers (1–6 entries mixing updatable and \
+         non-updatable keys, fresh or expired) by a MARKET_KEEPER, a MARKET_CONFIG_KEEPER, an ORDER_KEEPER-only key \
+         and a stranger, through the real instructions in hostsvm; oracle = the policy in the property over a \
+         reference set of updatable keys. non-trivial = every attempt; distinct = (kind, actor, updatable?, outcome)",
+    );
+    let shards = args.scale(16, 64);
+    let quiet = hostsvm::QuietStdout::new();
+    run_shards(&mut mon, args.threads, shards, |shard, m| run_shard(args, shard, m));
+    drop(quiet);
+    mon.require("key_update_ok_ConfigKeeper", 50);
+    mon.require("key_update_denied_ConfigKeeper", 50);
+    mon.require("buffer_applied_ConfigKeeper", 10);
+    mon.require("buffer_denied_ConfigKeeper", 10);
+    mon.require("buffer_denied_MarketKeeper_expired", 5);
+    Some(mon.finish())
 }
